@@ -1,6 +1,7 @@
 import OmbottModel.Model.RouterSpec
 import OmbottModel.Lemmas.RouterGet
 import OmbottModel.Lemmas.RouterPrio
+import OmbottModel.Lemmas.RouterIns
 /-!
 C01 — Route resolution equals the plain rule-by-rule semantics.
 Property theorems only; helper lemmas live in `Lemmas/Router*.lean`.
@@ -19,6 +20,27 @@ theorem get_eq_spec (env : FilterEnv) (hs : NoSel env) (t : Node) (h : WFN t) (p
   unfold treeGet denote
   rw [getN_core env hs t h, firstMatch_eq_specResolve env _ _ (denN_sorted env t h path)]
   cases firstMatch env (denN t) path <;> simp [coreOf]
+
+/-- the empty tree of a new `RadiDict` is well formed and holds no rule -/
+theorem root_wf : WFN Node.root ∧ denote Node.root = [] := by
+  unfold Node.root WFN WFL WFT denote
+  simp [denN, denL, denT, ownRule]
+
+/-- **Insertion keeps the tree well formed**: `RadiDict.add` on a well-formed tree gives a
+well-formed tree (or raises, and then there is no new tree: the caller keeps the old one). -/
+theorem insert_wf (t t' : Node) (pat : List Sym) (d : Nat) (names : List Str) (ow : Bool)
+    (h : WFN t) (hi : treeAdd t pat d names ow = .ok t') : WFN t' :=
+  (insN_spec _ t h pat t' hi).1
+
+/-- **Insertion adds exactly the rule**: after `RadiDict.add(pattern, data, params)` the tree
+holds the rule `(pattern, data, params)`, every rule it held before under another pattern, and
+nothing else (the rule previously stored under the same pattern is replaced). -/
+theorem insert_denote (t t' : Node) (pat : List Sym) (d : Nat) (names : List Str) (ow : Bool)
+    (h : WFN t) (hi : treeAdd t pat d names ow = .ok t') :
+    ∀ e, e ∈ denote t' ↔ e = ⟨pat, d, names⟩ ∨ (e ∈ denote t ∧ e.pat ≠ pat) := by
+  intro e
+  have := (insN_spec _ t h pat t' hi).2.2.2 e
+  simpa [newRule, denote] using this
 
 /-- "not found" is answered exactly when the tree lookup finds no route -/
 theorem resolve_notFound_iff_miss (env : FilterEnv) (R : Router) (path : Str) (ms : List Str) :
